@@ -30,7 +30,10 @@ cd "$ROOT/work/fuzzlogs" || exit 2
 rm -f fuzz-*.log
 MAXLEN=260
 if [ "$ENG" = eval ]; then case "$PROP" in C16) MAXLEN=40;; C12) MAXLEN=160;; C07) MAXLEN=200;; esac; fi
-"$BIN" "$CORPUS" -artifact_prefix="$ART" -runs="$RUNS" -seed="$SEED" -len_control=0 -max_len=$MAXLEN -jobs="$JOBS" -workers="$JOBS" -print_final_stats=1 >"$ROOT/work/fuzzlogs/driver-$PROP-$ENG.log" 2>&1
+# histories of the SEQ / CONC profiles leak on purpose (mem::forget of guards and keys is part of the
+# vocabulary): LeakSanitizer is only meaningful for the C16 drop plans
+LEAKS=0; [ "$PROP" = C16 ] && LEAKS=1
+"$BIN" "$CORPUS" -artifact_prefix="$ART" -runs="$RUNS" -seed="$SEED" -len_control=0 -max_len=$MAXLEN -detect_leaks=$LEAKS -jobs="$JOBS" -workers="$JOBS" -print_final_stats=1 >"$ROOT/work/fuzzlogs/driver-$PROP-$ENG.log" 2>&1
 execs=$(grep -h "stat::number_of_executed_units" fuzz-*.log 2>/dev/null | awk '{s+=$2} END {print s+0}')
 cov=$(grep -h "cov:" fuzz-*.log 2>/dev/null | sed -n 's/.*cov: \([0-9]*\).*/\1/p' | sort -n | tail -1)
 corpus=$(ls "$CORPUS" | wc -l)
@@ -48,7 +51,7 @@ fi
 if [ $code -eq 0 ] && [ "$after" -eq "$before" ]; then
 	for a in "$ART"crash-* "$ART"leak-*; do
 		[ -f "$a" ] || continue
-		if "$BIN" "$a" >"$ROOT/work/fuzzlogs/repro-$PROP-$ENG.log" 2>&1; then continue; fi
+		if "$BIN" "$a" -detect_leaks=$LEAKS >"$ROOT/work/fuzzlogs/repro-$PROP-$ENG.log" 2>&1; then continue; fi
 		summary="$(grep -m1 -E "^SUMMARY: |ERROR: (Address|Leak)Sanitizer" "$ROOT/work/fuzzlogs/repro-$PROP-$ENG.log" | cut -c1-200)"
 		if [ "$PROP" = C16 ]; then
 			rp="$ROOT/replays/$PROP-fuzz-sanitizer-$(basename "$a" | cut -c1-24).json"
